@@ -68,7 +68,8 @@ VALUES = ["1", "-1", "1.5", "inf", "-inf", "nan", "1e999", "-1e999", "10**400", 
           "+x", "*", "*q", "x y", "'x'", '"*y"', "1e3", "4/2", "3/2", "2**0.5", "1j", "'a'", "\"\"", "''", "None None", "Auto 1",
           "1 None", "None 1", "Auto Auto", "lambda: 1", "__import__", "[1,2]", "(1,2,3)", "1,,2", "pi", "e", "sqrt(4)", "sqrt(-1)",
           "log(0)", "0x10", "1_000", "١", "²", "1.", ".5", "1e", "e1", "--1", "1 if True else 2", "[x for x in ()]", "x y z",
-          "*x *y", "*x *z", "z", "$a", "$(a)", "$", "\\", "a\\", "#", "# c", "1 # c", "{", "}"]
+          "*x *y", "*x *z", "z", "$a", "$(a)", "$", "\\", "a\\", "#", "# c", "1 # c", "{", "}",
+          "%", "%s", "%d", "a%b", "sin%1", "1%(1,)", "1%0", "%(x)s", "100%", "'%s'", "5%3"]
 
 
 class Timeout(Exception):
@@ -98,6 +99,10 @@ def guarded(f):
         if type(e) is RuntimeError:
             return "runtime"
         msg = str(e)
+        if isinstance(e, IndentationError):
+            import traceback
+            if any(fr.name == "normalize_call_expression" for fr in traceback.extract_tb(e.__traceback__)):
+                return "outside"  # a .type expression spanning several lines: the property covers one-line arguments
         if (msg.startswith('scope "') and ".call" in msg) or msg.startswith(".type=") and "_phil_converters" in msg:
             return "outside"  # Python import attributes (.call, dotted non-built-in .type): not in the property's domain
         return ("stray", type(e).__name__, msg[:120])
@@ -156,7 +161,14 @@ def run(ctx):
             ctx.notes.append("stopped early on time budget")
             break
         k = i % 5
-        if k == 0:
+        if k == 0 and i % 15 == 0:
+            # a switched-off region that runs into the end of the text in every possible way
+            text = (rng.choice(["", "a = 1\n", "s {\n"]) + "#phil __OFF__" + rng.choice(["\n", " \n", "\nx = 'junk\n", "\n\n"])
+                    + rng.choice(["", "junk {\n", "#phil x\n"])
+                    + rng.choice(["#phil", "#phil__ON__", "#philosophy", "#phil __ON__", "#phil  ", "#phil\n__ON__", "#phil __END__",
+                                  "#phil __O", " #phil", "#phil\t", "#phil __ON__ x", "#"])
+                    + rng.choice(["", "", "\n", " ", "\nb = 2"]))
+        elif k == 0:
             text = gen.soup(rng)
         elif k == 1:
             text = gen.mutate(rng, gen.DocGen(rng).doc())
@@ -180,9 +192,10 @@ def run(ctx):
             note("fetch_extract", text, out)
         elif k == 3:
             # ---- argument interpreter
-            name = rng.choice(["a", "b", "c", "s.h", "h", "m.u", "u", "s.m.w", "zz", "s", "", "a.", ".a", "e", "f", "g", "st", "i"])
+            name = rng.choice(["a", "b", "c", "s.h", "h", "m.u", "u", "s.m.w", "zz", "s", "", "a.", ".a", "e", "f", "g", "st", "i",
+                               "a%b", "%s", "a%"])
             val = rng.choice(VALUES) if rng.random() < 0.7 else gen.soup(rng, rng.randint(1, 4))
-            arg = rng.choice(["%s=%s", "%s = %s", "%s=%s;", "%s %s", "--%s=%s", "%s==%s", "%s={%s}"]) % (name, val)
+            arg = rng.choice(["%s=%s", "%s = %s", "%s=%s;", "%s %s", "--%s=%s", "%s==%s", "%s={%s}", "--%s%s"]) % (name, val)
             interp = master().command_line_argument_interpreter(home_scope=rng.choice([None, "s", "s.m", "x"]))
             out = guarded(lambda: interp.process(arg=arg))
             note("process_arg", arg, out)
